@@ -119,6 +119,7 @@ def run_k(ctx, kres):
     for (name, ops, w), b in zip(scen, bases): res.append(((name, ops, w, 0), b))
     for (name, ops, w, n), r in res:
         kres["evaluations"] += r["ncalls"]
+        if len(kres["samples"]) < 3 and n: kres["samples"].append({"suite": "K18-systematic", "trace": "%s pre-empted at callback %d" % (name, n), "ops": [l for l in r["log"].splitlines() if not l.startswith(("call -1", "ret -1"))][:14]})
         a, b_, _ = name.split("/")
         key = "%s/%s" % (a, b_)
         kres["hist"]["systematic:" + a] = kres["hist"].get("systematic:" + a, 0) + 1
@@ -143,6 +144,7 @@ def run_k(ctx, kres):
     soft = collections.Counter()
     for s, ops, r in ex.map(rnd, range(n)):
         kres["evaluations"] += r["ncalls"]
+        if len(kres["samples"]) < 6: kres["samples"].append({"suite": "K18-random", "trace": "seed %d" % s, "ops": [l for l in r["log"].splitlines() if not l.startswith(("call -1", "ret -1"))][:14]})
         kres["hist"]["random:preemptions=%d" % r["npre"]] = kres["hist"].get("random:preemptions=%d" % r["npre"], 0) + 1
         for sg, t in r["hard"]:
             sg = "random:" + sg
